@@ -25,6 +25,7 @@ type specCtx struct {
 	calleeOnly  bool // contract of another function: only binds, results and ghosts are visible
 	oldIsPre    bool // old() refers to ctx.old as a whole (pre-call state) and keeps caller locals
 	paramsEntry bool // postconditions: parameter names denote their values at entry
+	pkg         *ssa.Package // package whose scope resolves package-level names (the contract's own package)
 }
 
 // evalAssume / evalGoal: top-level evaluation of a contract formula.  Type-system facts about the
@@ -289,15 +290,19 @@ func (g *Gen) evalIdent(ctx *specCtx, name string) Val {
 
 // pkgLevel resolves package-level constants and variables of the function's package.
 func (g *Gen) pkgLevel(ctx *specCtx, name string) (Val, bool) {
-	if g.fn.Pkg == nil {
+	pkg := g.fn.Pkg
+	if ctx.pkg != nil {
+		pkg = ctx.pkg
+	}
+	if pkg == nil {
 		return nil, false
 	}
-	obj := g.fn.Pkg.Pkg.Scope().Lookup(name)
+	obj := pkg.Pkg.Scope().Lookup(name)
 	switch o := obj.(type) {
 	case *types.Const:
 		return g.constToVal(o.Val(), o.Type())
 	case *types.Var:
-		if gl, ok := g.fn.Pkg.Members[name].(*ssa.Global); ok {
+		if gl, ok := pkg.Members[name].(*ssa.Global); ok {
 			p := PtrV{RootKey: "G:" + gl.Pkg.Pkg.Path() + "." + gl.Name(), Ref: "1", Idx: "0", Elem: gl.Type().(*types.Pointer).Elem()}
 			return g.loadHeap(ctx.st, p), true
 		}
